@@ -99,6 +99,11 @@ def build(cfg):
             Fragment.get(arb, None)
             arb.mid_elaborated = i < len(cfg["intrs"]) - 1
     bad_adds(len(cfg["intrs"]))
+    got = sorted(f.value for f in arb.bus.features)
+    if got != sorted(cfg["feat"]) or any(not hasattr(arb.bus, f) for f in cfg["feat"]):
+        raise Violation("arbiter/bus-features", f"Arbiter(features={cfg['feat']} given as {cfg.get('feat_style', 'list')}"
+                        f"{', caller container ' + str(cfg.get('feat_tamper')) + ' afterwards' if cfg.get('feat_tamper') else ''}): "
+                        f"its bus reports features {got}")
     return arb, intrs
 
 
